@@ -236,3 +236,19 @@ package components
 //@   requires ip: ip != nil && ip.BaseIP != nil
 //@   modifies fwN, effCreated, effMkdir, fsEpoch
 //@   ensures file: tempFile != nil && createdName(tempFile) == basePath + "/" + tempPathOf(ip.path) && fwN == update(old(fwN), tempFile, 0)
+
+//@ define splitterOK(p *FileSplitter) bool = p.LinesPerSplit >= 1 && wfSrcOut(p.BaseProcess, "split_file") && p.inPorts != nil && "file" in p.inPorts && p.inPorts["file"] != nil && p.inPorts["file"].Chan != nil
+//@ func (*FileSplitter).Run(p)
+//@   props C19
+//@   requires wf: splitterOK(p)
+//@   modifies *
+//@   atcall (*os.File).WriteString writes-the-line-just-read-to-the-current-part[C19]: $arg0 == splitFile && $arg1 == scanLine(scanner, scanPos[scanner] - 1) + "\n"
+//@   atcall (*os.File).Close part-holds-at-most-the-line-limit[C19]: $arg0 == splitFile ==> fwN[splitFile] <= p.LinesPerSplit && (forall j int :: 0 <= j && j < fwN[splitFile] ==> fwAt[splitFile][j] == scanLine(scanner, (splitNo - 1) * p.LinesPerSplit + j) + "\n")
+//@   atcall FinalizePaths finalizes-the-part-just-closed[C19]: len($arg1) == 1 && $arg1[0] == splitIP && $arg0 == taskDir
+//@   atcall (*OutPort).Send sends-the-part-just-finalized[C19]: $arg1 == splitIP
+//@   atcall (*FileSplitter).newSplitIPFromIndex parts-are-numbered-consecutively-from-one[C19]: $arg2 == splitNo && $arg1 == inIP.path
+//@   loop 0 invariant stable: p == old(p) && splitterOK(p) && p.outPorts == old(p.outPorts) && p.inPorts == old(p.inPorts)
+//@   loop 1 invariant stable: p == old(p) && splitterOK(p) && p.outPorts == old(p.outPorts) && p.inPorts == old(p.inPorts) && scanner != nil && splitFile != nil && validIP(splitIP) && !splitIP.doStream && len(splitIP.path) > 0 && inIP != nil
+//@   loop 1 invariant count: lineNo == scanPos[scanner] + 1 && splitNo >= 1 && fwN[splitFile] == lineNo - 1 - (splitNo - 1) * p.LinesPerSplit && 0 <= fwN[splitFile] && fwN[splitFile] < p.LinesPerSplit
+//@   loop 1 invariant content: forall j int :: 0 <= j && j < fwN[splitFile] ==> fwAt[splitFile][j] == scanLine(scanner, (splitNo - 1) * p.LinesPerSplit + j) + "\n"
+//@   loop 1 invariant part-name: splitIP.path == splitPathOf(inIP.path, splitNo)
